@@ -114,5 +114,8 @@ class Existing_Potential_Form(object):
 
   def __call__(self, *args):
     self._check_call(*args)
-    f = self._potential_form(*args)
+    try:
+      f = self._potential_form(*args)
+    except ValueError as e:
+      raise Potential_Form_Exception("Invalid parameters for potential form '{}': {}".format(self.signature.label, e))
     return f
